@@ -53,7 +53,23 @@ def do_replay(pid, path):
     if hasattr(mod, "install"):
         mod.install(ctx)
     case = v["case"]
-    mod.EXECUTORS[case["exec"]](ctx, **case["args"])
+    fn = mod.EXECUTORS.get(case["exec"])
+    if fn is None:
+        # a contract installed by a sibling's oracle (e.g. the 1-D binning contract evaluated inside C01 / C03 workloads) names that sibling's executor
+        import glob
+        for path in sorted(glob.glob(os.path.join(os.path.dirname(os.path.abspath(__file__)), "props", "c[0-9][0-9].py"))):
+            other = load_prop(os.path.basename(path)[:-3].upper())
+            if case["exec"] in getattr(other, "EXECUTORS", {}):
+                fn = other.EXECUTORS[case["exec"]]
+                break
+    if fn is None:
+        print("INCONCLUSIVE property=%s replay names an unknown executor %r" % (pid, case["exec"]))
+        return 2
+    try:
+        fn(ctx, **case["args"])
+    except Exception as e:  # noqa  (a crash of the harness while replaying is not a verdict on the library)
+        print("INCONCLUSIVE property=%s harness exception while replaying: %r" % (pid, e))
+        return 2
     known = findings.load()
     bad = 0
     for vv in ctx.violations:
